@@ -727,10 +727,13 @@ def mon_handler_builds(shape, pr, bypass, host):
     return mon
 
 
-def scenario_handle_pr(ctx, shape, pr, natoms, mode, monitors_of, no_octopus=False, nfresh=10,
+def scenario_handle_pr(ctx, shape, pr, natoms, mode, monitors_of, no_octopus=False, nfresh=None,
                        with_w=True, pr_status='OPEN', pre=None, interfere=None):
     import bert_e.workflow.gitwaterflow as gwf
     refs = handler_refs(shape, pr, mode, with_w)
+    if nfresh is None:
+        # conflict probe, integration-branch updates, queue / direct merges: up to ~8 merge commits per target
+        nfresh = 10 if len(targets(shape, pr.dst)) <= 2 and no_octopus else 8 * len(targets(shape, pr.dst)) + 4
     repo = SymRepo(ctx, refs, natoms, nfresh, interfere=interfere)
     repo.log_cut = True        # cut: history-mismatch check and commit listings in messages
     ctx.assume(symgit.status_domain(repo, natoms + nfresh))
